@@ -344,6 +344,9 @@ def run_cvc5(smt2, timeout_ms):
 
 
 # ------------------------------------------------------------------ model -> python values
+_OBJDEPTH = [0]
+
+
 def concretize(v, model):
     """best-effort concrete Python value (JSON-describable) for a symbolic value"""
     ev = lambda z: model.eval(z, model_completion=True)   # noqa
@@ -384,8 +387,25 @@ def concretize(v, model):
         n = ev(z3.Length(v.z)).as_long()
         return [concretize(from_z3(z3.simplify(ev(v.z[i])), v.elem), model) for i in range(min(n, 64))]
     if isinstance(v, VObj):
-        return {"__obj__": v.cls, "fields": {k: concretize(x, model) for k, x in v.fields.items()
-                                             if not isinstance(x, (VObj,))}}
+        # nested collaborator objects (ghost fields of boundary models): two levels, no cycles
+        depth = _OBJDEPTH[0]
+        out = {}
+        for k, x in v.fields.items():
+            if isinstance(x, VObj):
+                if depth >= 2 or any(isinstance(y, VObj) for y in x.fields.values()):
+                    continue
+                try:
+                    _OBJDEPTH[0] = depth + 1
+                    out[k] = concretize(x, model)
+                except Exception:
+                    pass
+                finally:
+                    _OBJDEPTH[0] = depth
+                continue
+            if isinstance(x, (VFunc, VClass, VExt, VBoundExt)):
+                continue
+            out[k] = concretize(x, model)
+        return {"__obj__": v.cls, "fields": out}
     if isinstance(v, VOpaque):
         return {"__opaque__": v.name, "id": str(ev(v.z))}
     if isinstance(v, VSet):
